@@ -518,7 +518,7 @@ def check_batch_inverse(rep, mod, cfg, sizes, extra=()):
         if len(S) != 3:
             rep.incomplete('batchInverse:%s' % cfg, 'ext-batch-inverse', site, 'extension mul/inv/copy entry points not found')
             continue
-        for n, inplace in [(k, False) for k in sizes] + [(k, True) for k in sizes[:16]] + [(k, ip) for k in extra for ip in (False, True)]:
+        for n, inplace in [(k, False) for k in sizes] + [(k, True) for k in sizes[:16] + [k2 for k2 in sizes if k2 > 256]] + [(k, ip) for k in extra for ip in (False, True)]:
             tag = '%s/batchInverse size=%d%s' % (cfg, n, ' in place (res=src)' if inplace else '')
             try:
                 eff = harness.run_routine(mod, name, S, values={'size': n}, extents={'res': 24 * n, 'src': 24 * n},
@@ -565,7 +565,7 @@ def run(rep, tier, seed):
         for n in invs:
             check_inv(rep, mod, cfg, n)
         check_isone(rep, mod, cfg)
-        sizes = list(range(1, 33)) if tier == 'quick' else list(range(1, 129)) + [200, 256]
+        sizes = (list(range(1, 33)) + [257, 1000]) if tier == 'quick' else list(range(1, 129)) + [200, 256, 257, 1000, 4097, 8191]
         # threshold-directed lengths: both sides of every integer constant the routine (and its local helpers) has that the
         # pinned tree did not (a block length, a chunk size); in place as well
         from .. import thresholds
